@@ -15,7 +15,9 @@ RULE = ("random lattices (all-2 ranks 1-7, rank 8 all-2 = matmul path, runs of e
         "dimension; clip_inputs on/off; via the Lattice layer or the lattice_lib function) with dyadic kernels "
         "(random, monotone along a subset of dimensions, Edgeworth-feasible for a pair) evaluated on points "
         "drawn interior / on cell faces / on vertices / with tied fractional parts / on the outermost edge / on "
-        "axis-parallel edges / outside the range (clip on only), plus points moved along one dimension; ~10% of the "
+        "axis-parallel edges / outside the range (clip on: clipped; clip off: unclipped, hypercube up to 3 beyond "
+        "either end, simplex above -1), plus points moved along one dimension and partners 2^-10 beside an integer "
+        "coordinate (continuity across cell faces); ~10% of the "
         "cases (a share of the layer route, class suffix _f32) build the layer in float32 - the layers' DEFAULT dtype "
         "- with the same dyadic kernels and points (exact in float32) and are compared with tolerance 1e-5; the Coq "
         "model evaluates the same points. Non-trivial = the case has a point that is not a vertex; distinct = "
@@ -31,15 +33,18 @@ TRUSTED = ["model: Model/LatticeInterp.v + Model/Interp1D.v, hand-written from l
            "tie: Lattice layer built in float64 (or float32) with assigned kernel, and direct lattice_lib calls, "
            "outputs compared in Coq with relative tolerance 1e-9 (float32 layers: 1e-5, carried by the case) "
            "(FUNCTIONAL: a disagreement is a failing input)"]
-LIMITS = ["unclipped out-of-range inputs are not generated (the property does not speak about them; the "
-          "simplex gather would index outside the kernel there); a mutation that makes the layer clip when "
-          "clip_inputs is off is therefore invisible",
+LIMITS = ["unclipped out-of-range inputs (clip_inputs off) are generated and compared with the model only: no theorem "
+          "and no predicate clause speaks about them (the property's shape clauses are for in-range or clipped "
+          "inputs); for simplex interpolation they stay above -1 in every coordinate, the gather raises at or below "
+          "-1 on lattices that are not 2^d (known finding D71); they are kept out of the float32 cases",
           "float rounding (and the cast to int32 of huge or non-finite inputs) is outside the model (tolerance 1e-9 "
           "in float64, 1e-5 * max(1, |v|) in float32, in the Coq comparison and in the predicates)",
           "input shape validation errors and rank-0 lattices are not modelled (C16)",
           "lattices are kept to <= 256 vertices, so rank >= 9 (a second matmul step) is not exercised",
-          "simplex continuity across cell faces is proved one face at a time (C02_simplex_continuous); crossing "
-          "several faces at once is the composition of such steps and is not stated as one theorem"]
+          "continuity is stated as: the layer output is the cell formula of EVERY cell containing the point "
+          "(C02_hyper_layer_continuous, C02_simplex_layer_continuous); a Lipschitz bound is not proved, the "
+          "implementation-side continuity clause checks one (largest kernel step along the dimension) on the "
+          "generated pairs, among them partners 2^-10 beside a cell face"]
 
 TOL = 1e-9
 TOL32 = 1e-5
@@ -167,6 +172,27 @@ def _gen_point(rng, sizes, clip, pclass):
       else:
         out.append(interior(s))
     return out
+  if pclass in ("outside_noclip", "outside_noclip_simplex"):
+    # clip_inputs off and at least one coordinate outside [0, size - 1]: the code extrapolates (2^d single-tensor
+    # path, simplex) or lets the hat weights vanish (general hypercube path). The simplex gather raises for
+    # coordinates <= -1 on lattices that are not 2^d (known finding D71), so simplex points stay above -1.
+    below = [0.125, 0.5, 0.875] if pclass == "outside_noclip_simplex" else [0.125, 0.5, 0.875, 1.0, 1.5, 3.0]
+    above = [0.125, 0.5, 1.0, 1.5, 3.0]
+    if rank >= 6:  # the 2^d extrapolation multiplies the weights of all dimensions: keep the products small
+      below, above = below[:3], above[:3]
+    out = []
+    forced = rng.randrange(rank)
+    for i, s in enumerate(sizes):
+      c = rng.random()
+      if i == forced:
+        c *= 0.6
+      if c < 0.3:
+        out.append(-rng.choice(below))
+      elif c < 0.6:
+        out.append(s - 1.0 + rng.choice(above))
+      else:
+        out.append(interior(s))
+    return out
   raise ValueError(pclass)
 
 
@@ -185,15 +211,20 @@ def gen_descs(ctx):
     via = rng.choice(["layer", "layer", "lib"])
     kclass, kinfo, kern = _gen_kernel(rng, sizes, units)
     K = kern.reshape(_prod(sizes), units).tolist()
-    pclasses_all = ["interior", "vertex", "face", "tied", "top", "axis_edge"] + (["outside", "outside"] if clip else [])
-    pts, pcls, pairs, quads = [], [], [], []
+    pclasses_all = (["interior", "vertex", "face", "tied", "top", "axis_edge"] +
+                    (["outside", "outside"] if clip else ["outside_noclip", "outside_noclip"]))
+    pts, pcls, pairs, quads, cpairs = [], [], [], [], []
     nbase = 3 if sclass == "all2r8" else rng.randint(3, 5)
     for _ in range(nbase):
       pc = rng.choice(pclasses_all)
-      base = [_gen_point(rng, sizes, clip, pc) for _ in range(units)]
+      base = [_gen_point(rng, sizes, clip, pc + ("_simplex" if simplex and pc == "outside_noclip" else ""))
+              for _ in range(units)]
       bi = len(pts)
       pts.append(base)
       pcls.append(pc)
+      if pc == "outside_noclip":
+        # no partner point: the shape clauses (monotone, Edgeworth, continuity) speak about in-range or clipped inputs
+        continue
 
       def moved(p, d, delta):
         q = [list(r) for r in p]
@@ -208,6 +239,7 @@ def gen_descs(ctx):
         pts.append(moved(base, d, delta))
         pcls.append("moved")
         pairs.append([bi, len(pts) - 1, d])
+        cpairs.append([bi, len(pts) - 1, d])
       elif kclass == "edge":
         m, cd = kinfo["edge"]
         dm = rng.choice([0.125, 0.5, 1.0, 2.5])
@@ -220,18 +252,30 @@ def gen_descs(ctx):
           pts.extend([xm, y, ym])
           pcls.extend(["moved"] * 3)
           quads.append([bi, bi + 1, bi + 2, bi + 3])
+          cpairs.extend([[bi, bi + 1, m], [bi, bi + 2, cd], [bi + 2, bi + 3, m]])
       else:
         d = rng.randrange(rank)
         pts.append(moved(base, d, rng.choice([0.125, 0.5, 1.0])))
         pcls.append("moved")
+        cpairs.append([bi, len(pts) - 1, d])
+      if pc in ("face", "vertex", "top", "tied", "axis_edge") and rng.random() < 0.6:
+        # continuity across / onto a cell face: a partner 2^-10 away from an integer coordinate of the base point
+        # (on either side; clamped into the range when clip_inputs is off)
+        ints = [i for i in range(rank) if all(r[i] == int(r[i]) for r in base)]
+        if ints:
+          d = rng.choice(ints)
+          pts.append(moved(base, d, rng.choice([-1, 1]) * 2.0 ** -10))
+          pcls.append("near")
+          cpairs.append([bi, len(pts) - 1, d])
     extra_batch = rng.random() < 0.25
     if extra_batch and len(pts) % 2 == 1:
       pts.append([_gen_point(rng, sizes, clip, "interior") for _ in range(units)])
       pcls.append("interior")
     d = dict(sclass=sclass, sizes=sizes, units=units, simplex=simplex, tensor=tensor, clip=clip, via=via,
              kclass=kclass, kinfo=kinfo, K=K, pts=pts, pcls=pcls, pairs=pairs, quads=quads,
-             extra_batch=extra_batch)
-    if via == "layer" and rng.random() < 0.15:
+             cpairs=cpairs, extra_batch=extra_batch)
+    if via == "layer" and rng.random() < 0.15 and "outside_noclip" not in pcls:
+      # (extrapolated outputs are sums of large terms of both signs: not exact in float32)
       d["dtype"] = "float32"   # kernel and points are multiples of 1/8 (exact in float32)
       if kclass == "random":
         d["K"] = [[fine(rng, v) for v in row] for row in K]
@@ -276,18 +320,60 @@ def _run_impl(tf, tfl, d, simplex, via):
   return y.reshape(npts, units)
 
 
-def _predicate(d, outs, other):
+def _clipped(p, sizes):
+  return [[min(max(v, 0.0), s - 1.0) for v, s in zip(r, sizes)] for r in p]
+
+
+def _free(d):
+  """Indices of the points the shape clauses do not speak about: clip_inputs off and a coordinate out of range."""
+  return {i for i, pc in enumerate(d["pcls"]) if pc == "outside_noclip"}
+
+
+def _predicate(d, outs, other, at_clipped=None):
   """Property clauses evaluated on the implementation's outputs."""
   sizes, units = d["sizes"], d["units"]
+  rank = len(sizes)
   TOL = tol_of(d)   # pylint: disable=invalid-name,redefined-outer-name
   K = np.array(d["K"], dtype=np.float64)
   strides = [_prod(sizes[i + 1:]) for i in range(len(sizes))]
+  free = _free(d)
+  bound = [(i, p, o, oo) for i, (p, o, oo) in enumerate(zip(d["pts"], outs, other)) if i not in free]
+  if at_clipped is not None:
+    # clip_inputs on: the layer evaluated on x and on the point clipped onto the lattice range give the same output
+    for i, (p, o, oc) in enumerate(zip(d["pts"], outs, at_clipped)):
+      for u in range(units):
+        if abs(o[u] - oc[u]) > TOL * max(1, abs(oc[u])):
+          return ("clip_inputs is on but the output %r of unit %d at %r differs from the output %r at the clipped "
+                  "point %r" % (o[u], u, p[u], oc[u], _clipped(p, sizes)[u]))
+  Kt = K.reshape(tuple(sizes) + (units,))
+  offs = np.array(list(itertools.product([0, 1], repeat=rank)), dtype=int)
   for u in range(units):
     lo, hi = K[:, u].min(), K[:, u].max()
-    for p, o in zip(d["pts"], outs):
+    for i, p, o, _ in bound:
       if not lo - TOL * max(1, abs(lo)) <= o[u] <= hi + TOL * max(1, abs(hi)):
         return "output %r of unit %d at %r leaves [min kernel, max kernel] = [%r, %r]" % (o[u], u, p[u], lo, hi)
-    for p, o, oo in zip(d["pts"], outs, other):
+    # convex combination of the corner values of the cell containing the (clipped) point
+    for i, p, o, _ in bound:
+      xc = _clipped(p, sizes)[u]
+      c = np.array([min(int(np.floor(v)), s - 2) for v, s in zip(xc, sizes)], dtype=int)
+      corners = Kt[tuple((c + offs).T) + (u,)]
+      clo, chi = corners.min(), corners.max()
+      if not clo - TOL * max(1, abs(clo)) <= o[u] <= chi + TOL * max(1, abs(chi)):
+        return ("output %r of unit %d at %r is not a convex combination of the corner values of its cell (lower "
+                "corner %r, corner values in [%r, %r])" % (o[u], u, p[u], c.tolist(), clo, chi))
+    # continuity (Lipschitz along one dimension): two points that differ by t in coordinate dim (after clipping)
+    # differ in output by at most t * max |K[i + e_dim] - K[i]|; the partners 2^-10 beside a cell face make a jump
+    # of the output at the face visible
+    for i, j, dim in d.get("cpairs", []):
+      if i in free or j in free:
+        continue
+      t = abs(_clipped(d["pts"][j], sizes)[u][dim] - _clipped(d["pts"][i], sizes)[u][dim])
+      step = float(np.abs(np.diff(Kt[..., u], axis=dim)).max())
+      if abs(outs[j][u] - outs[i][u]) > step * t + 2 * TOL * max(1, abs(outs[i][u])):
+        return ("output of unit %d jumps from %r to %r between %r and %r (distance %r along dimension %d, largest "
+                "kernel step along it %r): not continuous across the cell boundary" % (
+                    u, outs[i][u], outs[j][u], d["pts"][i][u], d["pts"][j][u], t, dim, step))
+    for i, p, o, oo in bound:
       xc = [min(max(v, 0.0), s - 1.0) for v, s in zip(p[u], sizes)]
       nonint = [i for i, v in enumerate(xc) if v != int(v)]
       if not nonint:
@@ -299,6 +385,8 @@ def _predicate(d, outs, other):
             p[u], u, o[u], oo[u])
   if d["kclass"] == "mono":
     for i, j, dim in d["pairs"]:
+      if i in free or j in free:
+        continue
       for u in range(units):
         if outs[j][u] < outs[i][u] - TOL * max(1, abs(outs[i][u])):
           return ("kernel of unit %d is non-decreasing along dimension %d but output decreases from %r to %r "
@@ -322,17 +410,26 @@ def eval_cases(ctx, descs):
     klass = "%s_%s_%s_%s_%s%s" % (d["sclass"], "simplex" if d["simplex"] else "hyper",
                                   "tensor" if d["tensor"] else "list", "u1" if d["units"] == 1 else "uN",
                                   "clip" if d["clip"] else "noclip", "_f32" if is_f32(d) else "")
+    free = _free(d)
+    if free:
+      klass += "_outside"
     try:
       y = _run_impl(tf, tfl, d, d["simplex"], d["via"])
-      # the other scheme, through the lattice_lib function, for the agreement clause
-      yo = _run_impl(tf, tfl, d, not d["simplex"], "lib")
+      # the other scheme, through the lattice_lib function, for the agreement clause (which does not speak about
+      # unclipped out-of-range points: those are replaced by their clipped versions in this run, the simplex gather
+      # would raise on coordinates <= -1)
+      dsafe = dict(d, pts=[_clipped(p, d["sizes"]) if i in free else p for i, p in enumerate(d["pts"])])
+      yo = _run_impl(tf, tfl, dsafe, not d["simplex"], "lib")
+      yc = None
+      if d["clip"] and "outside" in d["pcls"]:
+        yc = _run_impl(tf, tfl, dict(d, pts=[_clipped(p, d["sizes"]) for p in d["pts"]]), d["simplex"], d["via"])
     except Exception as e:  # pylint: disable=broad-except
       cases.append(Case(d, coq=None, klass=klass, pred_fail="implementation raised %s: %s on in-range or clipped "
-                        "input" % (type(e).__name__, str(e)[:300])))
+                        "input (or unclipped input outside the range; simplex: above -1)" % (type(e).__name__, str(e)[:300])))
       continue
     outs = [[float(v) for v in row] for row in y]
     other = [[float(v) for v in row] for row in yo]
-    fail = _predicate(d, outs, other)
+    fail = _predicate(d, outs, other, None if yc is None else [[float(v) for v in row] for row in yc])
     coq = "mk %s %s %s %s %s %s %s %s %s" % (
         cbool(d["simplex"]), cbool(d["tensor"]), cbool(d["clip"]), cnat(d["units"]), cnatl(d["sizes"]),
         cqm(d["K"]), clist([cqm(p) for p in d["pts"]]), cqm(outs), "tol32" if is_f32(d) else "tol")
